@@ -1,5 +1,5 @@
 (* C09: a rows event decodes to exactly the rows the master encoded. *)
-From GB Require Import Base.Prelude Base.BytesLemmas Model.Header Model.Events Model.Cell Model.Rbr Model.Streamer.
+From GB Require Import Proofs.TableIdProofs Base.Prelude Base.BytesLemmas Model.Header Model.Events Model.Cell Model.Rbr Model.Streamer.
 From GB Require Import Spec.EncHeader Spec.Values Spec.EncEvent Spec.Expect.
 From GB Require Import Proofs.CellCommon Proofs.BitmapProofs Proofs.EventFrame Proofs.ImageProofs Proofs.CellFamilies
                        Proofs.TableMapProofs.
@@ -469,7 +469,8 @@ Theorem rows_table_id c v h tys r crc :
 Proof.
   intros Wc Hk Hid Hh.
   destruct (rows_type_facts c (rd_kind r) Hk) as (_ & _ & _ & T4).
-  rewrite strip_enc_ev. cbn [bind]. unfold ev_table_id.
+  rewrite strip_enc_ev. cbn [bind].
+  rewrite ev_table_id_lin_eq by (cbn [expect_format f_hlen]; pose proof (wf_cfg_hlen c Wc); lia). unfold ev_table_id_lin.
   rewrite ev_type_frame, Hh. cbn [bind].
   rewrite header_size_ok by auto. cbn [bind].
   assert (E : (post_header c (rows_type c (rd_kind r)) =? 6) = c_tid4 c).
